@@ -44,6 +44,7 @@ type World struct {
 	specFnDeclared      map[string]bool
 	ContractFiles       []string
 	mayEffect           map[*ssa.Function]int        // memo: 1 = no, 2 = yes, 3 = in progress
+	slots      map[*ssa.Function]int
 	inlineOnly          map[*ssa.Function]int        // memo: 1 = no, 2 = yes
 	ifaceNames          map[string]map[string]bool   // package path -> method names of the interface types it mentions
 	Renames             map[string]map[string]string // top-level function key -> (name used in the contracts -> current name)
@@ -461,6 +462,45 @@ func (w *World) inlinable(f *ssa.Function) bool {
 		return false
 	}
 	return w.SpecFor(f) == nil
+}
+
+// loopSlots: how many loop numbers the body of f takes when it is executed in place (its loops, its maps.Iterate call
+// sites and, recursively, those of the helpers it executes in place); 0 if f is not executed in place.
+func (w *World) loopSlots(f *ssa.Function, depth int) int {
+	if f == nil || depth > 4 || isMapsIterate(f) {
+		return 0
+	}
+	if sp := w.SpecFor(f); !(w.inlinable(f) || (sp != nil && sp.Inline && f.Blocks != nil && f.Parent() == nil)) {
+		return 0
+	}
+	if w.slots == nil {
+		w.slots = map[*ssa.Function]int{}
+	}
+	if n, ok := w.slots[f]; ok {
+		return n
+	}
+	w.slots[f] = 0 // recursion guard
+	n := 0
+	heads := map[*ssa.BasicBlock]bool{}
+	for _, b := range f.Blocks {
+		for _, s := range b.Succs {
+			if s.Dominates(b) && !heads[s] {
+				heads[s] = true
+				n++
+			}
+		}
+		for _, in := range b.Instrs {
+			if c, ok := in.(*ssa.Call); ok {
+				if isMapsIterate(c.Call.StaticCallee()) {
+					n++
+				} else {
+					n += w.loopSlots(c.Call.StaticCallee(), depth+1)
+				}
+			}
+		}
+	}
+	w.slots[f] = n
+	return n
 }
 
 // InlineOnly: f has no contract and is reached only through static calls from repository functions (never used as a
